@@ -29,7 +29,14 @@ Property clause → theorem
     `unwrapped_loop_leaks_counterexample` (model of the old `x/liquidationsV2/keeper/liquidate.go:248-254`), against
     `unwrapped_loop_ok_if_no_failure`. The table obligations now demand the wrapper: taking it away again fails
     `unwrapped_calls_reviewed`, `units_of_work_wrapped` and `table_pins`, and the harness reports the leak (`uloop` lines).
-* every unit of work the property names sits in its own wrapper → `units_of_work_wrapped` (table).
+* every unit of work the property names sits in its own wrapper → `units_of_work_wrapped` (table): for every per-item
+  unit the wrapper call is INSIDE the item loop (`loopOver` = the innermost loop statement enclosing the call,
+  `innerLoops` = the loops written inside the closure) — `wrapper_sites_and_their_loops` pins all 17 sites with their loops.
+  What that buys, for ALL patterns of failing items: `per_item_loop_processes_ok_items` (exactly the items that do not fail
+  are processed), `blocker_splits_per_item` (the blocker over all items = the one-item blockers in sequence — the relation
+  the harness uses to find out, from the real code alone, which items are visible after a fault); what is lost when the
+  wrapper and the loop swap places (seed s99, `x/liquidity/abci.go:18-19`): `one_wrapper_all_or_nothing`,
+  `one_wrapper_for_all_counterexample`.
 * "… or reports failure at any point": the wrapper only sees what the closure returns → `wrapped_units_propagate_errors`
   (every error produced inside a closure is returned, up to the reviewed list `swallowReviewed`),
   `units_use_their_cache_context`, `per_item_units_can_report_failure` (table).
@@ -183,6 +190,73 @@ theorem unwrapped_loop_ok_if_no_failure {σ : Type} (items : List (Raw σ)) (h :
     simp only at hf
     subst hf
     simp [runUnwrappedLoop, hfs, ih' s']
+
+/-! ## 2b. Per-item granularity: the wrapper INSIDE the item loop -/
+
+/-- **Every item under its own wrapper**: whatever the pattern of failing items (`oks`), exactly the items that do not
+fail are processed, in order — a fault in item k leaves every item ≠ k processed. -/
+theorem per_item_loop_processes_ok_items (oks : List Bool) (i : Nat) (s : List Nat) :
+    (runUnits (itemUnits oks i) s).1 = s ++ okItems oks i := by
+  induction oks generalizing i s with
+  | nil => simp [itemUnits, runUnits, okItems]
+  | cons ok rest ih =>
+    cases ok
+    · simp [itemUnits, runUnits, applyIfNoError, itemUnit, okItems, ih]
+    · simp [itemUnits, runUnits, applyIfNoError, itemUnit, okItems, ih]
+
+example : (runUnits (itemUnits [true, false, true] 1) []).1 = [1, 3] := by
+  simpa [okItems] using per_item_loop_processes_ok_items [true, false, true] 1 []
+
+/-- … and every item's flag says whether it was processed -/
+theorem per_item_loop_flags (oks : List Bool) (i : Nat) (s : List Nat) :
+    (runUnits (itemUnits oks i) s).2 = oks := by
+  induction oks generalizing i s with
+  | nil => simp [itemUnits, runUnits]
+  | cons ok rest ih =>
+    cases ok
+    · simp [itemUnits, runUnits, applyIfNoError, itemUnit, ih]
+    · simp [itemUnits, runUnits, applyIfNoError, itemUnit, ih]
+
+/-- **The blocker over all items is the one-item blockers in sequence** — for arbitrary units. This is the relation by
+which the harness computes, from the REAL blocker run on one-app lists, what the state must be after a fault in app k. -/
+theorem blocker_splits_per_item {σ : Type} (us : List (σ → Except Fail σ)) (s : σ) :
+    (runUnits us s).1 = us.foldl (fun t f => (runUnits [f] t).1) s := by
+  induction us generalizing s with
+  | nil => rfl
+  | cons f fs ih => simp [runUnits, ih]
+
+example : (runUnits [fun n => .ok (n + 1), fun _ => .error Fail.panic, fun n => .ok (n * 10)] (1 : Nat)).1 =
+    [fun n => .ok (n + 1), fun _ => .error Fail.panic, fun n => .ok (n * 10)].foldl (fun t f => (runUnits [f] t).1) 1 :=
+  blocker_splits_per_item _ 1
+
+theorem seqAll_items (oks : List Bool) (i : Nat) (s : List Nat) :
+    seqAll (itemUnits oks i) s = if oks.all id = true then .ok (s ++ okItems oks i) else .error .err := by
+  induction oks generalizing i s with
+  | nil => simp [itemUnits, seqAll, okItems]
+  | cons ok rest ih =>
+    cases ok
+    · simp [itemUnits, seqAll, itemUnit]
+    · simp only [itemUnits, seqAll, itemUnit, if_true, ih, okItems, List.all_cons, id, Bool.true_and]
+      split <;> simp
+
+/-- **One wrapper around the whole loop is all-or-nothing for the LIST**: if any item fails, no item is processed — the
+items before the failing one are rolled back, the items after it are not started. -/
+theorem one_wrapper_all_or_nothing (oks : List Bool) (i : Nat) (s : List Nat) :
+    runAsOne (itemUnits oks i) s = if oks.all id = true then (s ++ okItems oks i, true) else (s, false) := by
+  unfold runAsOne applyIfNoError
+  rw [seqAll_items]
+  by_cases h : oks.all id = true <;> simp [h]
+
+example : runAsOne (itemUnits [true, true] 5) [4] = ([4, 5, 6], true) := by
+  simpa [okItems] using one_wrapper_all_or_nothing [true, true] 5 [4]
+example : (runUnits (itemUnits [false, true] 1) []).2 = [false, true] := per_item_loop_flags _ 1 []
+
+/-- seed s99 in the model: three apps, the second one poisoned. Per-app wrappers: apps 1 and 3 processed. One wrapper for
+all: nothing processed. -/
+theorem one_wrapper_for_all_counterexample :
+    runUnits (itemUnits [true, false, true] 1) [] = ([1, 3], [true, false, true]) ∧
+    runAsOne (itemUnits [true, false, true] 1) [] = ([], false) := by
+  constructor <;> rfl
 
 /-! ## 3. The sweep prelude (`GetSliceStartEndForLiquidations`, `list[start:end]`) -/
 
@@ -438,22 +512,56 @@ theorem unwrapped_is_the_unwrapped_part :
 def hasUnit (b fn : String) (loop : Bool) (nest : Nat) : Bool :=
   units.any fun u => u.blocker == b && u.inFn == fn && u.loop == loop && u.nest == nest
 
-/-- **Every unit of work the property names sits in its own wrapper.** -/
+/-- a per-item unit: a wrapper call in function `fn` whose innermost enclosing loop statement is `over` (the ITEM loop —
+the wrapper is inside it), at nesting depth `nest`, the closure itself containing exactly the loops `inner` (loops over
+the parts of ONE item; a loop over the items inside the closure would be one wrapper for all items) -/
+def perItemUnit (b fn over : String) (nest : Nat) (inner : List String) : Bool :=
+  units.any fun u => u.blocker == b && u.inFn == fn && u.loop && u.loopOver == over && u.nest == nest && u.innerLoops == inner
+
+/-- a hook that is one unit as a whole: a wrapper call at the top of the blocker, in no loop -/
+def wholeHookUnit (b : String) (inner : List String) : Bool :=
+  units.any fun u => u.blocker == b && u.inFn == "BeginBlocker" && !u.loop && u.loopOver == "" && u.nest == 1 && u.innerLoops == inner
+
+/-- **Every unit of work the property names sits in its own wrapper, and the wrapper is inside the loop over the items.** -/
 theorem units_of_work_wrapped :
-    hasUnit "liquidation.BeginBlocker" "LiquidateVaults" true 1 = true ∧        -- one vault liquidation (gen 1)
-    hasUnit "liquidation.BeginBlocker" "LiquidateBorrows" true 1 = true ∧       -- one borrow liquidation (gen 1)
-    hasUnit "liquidationsV2.BeginBlocker" "LiquidateVaults" true 1 = true ∧     -- one vault liquidation (gen 2)
-    hasUnit "liquidationsV2.BeginBlocker" "LiquidateBorrows" true 1 = true ∧    -- one borrow liquidation (gen 2; D6 repaired)
-    hasUnit "auction.BeginBlocker" "BeginBlocker" true 1 = true ∧               -- surplus / debt activator per collector mapping
-    hasUnit "auction.BeginBlocker" "RestartDutchAuctions" true 1 = true ∧       -- one auction update (gen 1, vault auctions)
-    hasUnit "auction.BeginBlocker" "RestartDutchLendAuctions" true 1 = true ∧   -- one auction update (gen 1, lend auctions)
-    hasUnit "auctionsV2.BeginBlocker" "AuctionIterator" true 2 = true ∧         -- one auction update (gen 2), nested in the pass
-    hasUnit "auctionsV2.BeginBlocker" "LimitOrderBid" true 2 = true ∧           -- one auction's limit-bid fill, nested in the pass
-    hasUnit "liquidity.BeginBlocker" "BeginBlocker" true 1 = true ∧             -- one app's request clean-up
-    hasUnit "liquidity.EndBlocker" "EndBlocker" true 1 = true ∧                 -- one app's batch execution
-    hasUnit "rewards.BeginBlocker" "BeginBlocker" false 1 = true ∧              -- the incentive hook as a whole
-    hasUnit "esm.BeginBlocker" "BeginBlocker" false 1 = true ∧                  -- the emergency-shutdown hook as a whole
-    hasUnit "lend.BeginBlocker" "BeginBlocker" false 1 = true := by decide
+    perItemUnit "liquidation.BeginBlocker" "LiquidateVaults" "range newVaults" 1 [] = true ∧       -- one vault liquidation (gen 1)
+    perItemUnit "liquidation.BeginBlocker" "LiquidateBorrows" "range newBorrowIDs" 1 ["range pool.AssetData"] = true ∧ -- one borrow liquidation (gen 1)
+    perItemUnit "liquidationsV2.BeginBlocker" "LiquidateVaults" "range newVaults" 1 [] = true ∧    -- one vault liquidation (gen 2)
+    perItemUnit "liquidationsV2.BeginBlocker" "LiquidateBorrows" "range newBorrowIDs" 1 [] = true ∧ -- one borrow liquidation (gen 2; D6 repaired)
+    perItemUnit "auction.BeginBlocker" "BeginBlocker" "range auctionMapData" 1 [] = true ∧         -- surplus / debt activator per collector mapping
+    perItemUnit "auction.BeginBlocker" "RestartDutchAuctions" "range dutchAuctions" 1 [] = true ∧  -- one auction update (gen 1, vault auctions)
+    perItemUnit "auction.BeginBlocker" "RestartDutchLendAuctions" "range dutchAuctions" 1 [] = true ∧ -- one auction update (gen 1, lend auctions)
+    perItemUnit "auctionsV2.BeginBlocker" "AuctionIterator" "range auctions" 2 [] = true ∧         -- one auction update (gen 2), nested in the pass
+    perItemUnit "auctionsV2.BeginBlocker" "LimitOrderBid" "range auctions" 2 ["range biddingData"] = true ∧ -- one auction's limit-bid fill (its bids: inner loop)
+    perItemUnit "liquidity.BeginBlocker" "BeginBlocker" "range allApps" 1 [] = true ∧              -- one app's request clean-up
+    perItemUnit "liquidity.EndBlocker" "EndBlocker" "range allApps" 1 [] = true ∧                  -- one app's batch execution
+    wholeHookUnit "rewards.BeginBlocker" [] = true ∧                                               -- the incentive hook as a whole
+    wholeHookUnit "esm.BeginBlocker" ["range apps"] = true ∧                                       -- the emergency-shutdown hook as a whole (all apps)
+    wholeHookUnit "lend.BeginBlocker" [] = true := by decide
+
+/-- **All wrapper sites with their loops**: for each of the 17 `ApplyFuncIfNoError` calls reached from a blocker — function,
+nesting depth, the innermost loop statement enclosing the call (`""` = none: a whole-hook unit or a pass) and the loops
+written inside its closure. A wrapper moved out of (or into) a loop, or a loop over items moved into a closure, changes
+this list. -/
+theorem wrapper_sites_and_their_loops :
+    (units.map fun u => (u.blocker, u.inFn, u.nest, u.loopOver, u.innerLoops)) =
+      [("liquidity.BeginBlocker", "BeginBlocker", 1, "range allApps", []),
+       ("liquidity.EndBlocker", "EndBlocker", 1, "range allApps", []),
+       ("liquidation.BeginBlocker", "LiquidateVaults", 1, "range newVaults", []),
+       ("liquidation.BeginBlocker", "LiquidateBorrows", 1, "range newBorrowIDs", ["range pool.AssetData"]),
+       ("liquidationsV2.BeginBlocker", "LiquidateVaults", 1, "range newVaults", []),
+       ("liquidationsV2.BeginBlocker", "LiquidateBorrows", 1, "range newBorrowIDs", []),
+       ("auction.BeginBlocker", "BeginBlocker", 1, "range auctionMapData", []),
+       ("auction.BeginBlocker", "BeginBlocker", 1, "range auctionMapData", []),
+       ("auction.BeginBlocker", "RestartDutchAuctions", 1, "range dutchAuctions", []),
+       ("auction.BeginBlocker", "RestartDutchLendAuctions", 1, "range dutchAuctions", []),
+       ("auctionsV2.BeginBlocker", "BeginBlocker", 1, "", []),
+       ("auctionsV2.BeginBlocker", "AuctionIterator", 2, "range auctions", []),
+       ("auctionsV2.BeginBlocker", "BeginBlocker", 1, "", []),
+       ("auctionsV2.BeginBlocker", "LimitOrderBid", 2, "range auctions", ["range biddingData"]),
+       ("rewards.BeginBlocker", "BeginBlocker", 1, "", []),
+       ("lend.BeginBlocker", "BeginBlocker", 1, "", []),
+       ("esm.BeginBlocker", "BeginBlocker", 1, "", ["range apps"])] := by decide
 
 /-! ### Error propagation inside the wrapped units (`errorSites`)
 
